@@ -36,7 +36,7 @@ func C01(r *core.Run) {
 	arrayDecodeCoverage(r)
 	whoTouchesProto(r)
 	presentNeverSkipped(r, "lib/j5reflect", "propSet.RangeValues", "every present property is encoded") // an allocated but empty wrapper is a value
-	anyContent(r) // an Any of an all-default message still carries (empty) content
+	anyContent(r)                                                                                       // an Any of an all-default message still carries (empty) content
 }
 
 // encodeDecodeMatrix (R-FLOW/F1): what the encoder writes for a kind, the
